@@ -54,6 +54,20 @@ def discover_locks(idx):
             LOCK_NAMES.add(d.split('.')[-1])
   if not LOCK_NAMES:
     raise AnalysisError('no threading.Lock() found in the repository')
+  # aliases: `lk = self._study._lock` makes `lk` a lock as well (fixpoint)
+  changed = True
+  while changed:
+    changed = False
+    for m in idx.modules.values():
+      for n in ast.walk(m.tree):
+        if isinstance(n, ast.Assign) and isinstance(n.value, (ast.Attribute, ast.Name)):
+          d = A.dotted(n.value)
+          if d and d.split('.')[-1] in LOCK_NAMES:
+            for t in n.targets:
+              td = A.dotted(t)
+              if td and td.split('.')[-1] not in LOCK_NAMES:
+                LOCK_NAMES.add(td.split('.')[-1])
+                changed = True
 
 
 def _lock_expr(e):
